@@ -1,14 +1,92 @@
-import Gallia.Model.UdsReq
+import Gallia.Proofs.Lemmas.UdsReqCodec
 import Gallia.Gen.C01Registry
 /-
   C01 — UDS requests serialise to the ISO 14229-1 layout and parse back losslessly.
+  Property theorems only; helper lemmas are in `Proofs/Lemmas/UdsReq.lean` and `Proofs/Lemmas/UdsReqCodec.lean`.
+
+  `Req` has one constructor per request kind of the registry (the six ReadDTCInformation kinds with a status mask,
+  the six without parameters and the three RoutineControl kinds are parameterised by their sub-function, whose
+  admissible values are part of `Req.WF`); `encode` is the ISO layout, `decode` the dynamic parser, `mk` construction.
 -/
 namespace Gallia.C01
 open Gallia Gallia.UdsReq
 
-/-- (T) the registry the model dispatches and gates on is the registry of the running code -/
+/-! ### (T) registry -/
+
+/-- the registry the model dispatches and gates on is the registry of the running code: same request classes, service ids,
+    sub-function ids, minimal and maximal lengths -/
 theorem registry_agrees : Gen.C01Registry.table = requestRegistry := by decide +kernel
 
+/-- the InputOutputControlByIdentifier convenience classes carry the control parameters / minimal lengths the model assumes -/
 theorem convenience_agrees : Gen.C01Registry.convenience = iocbiConvenience := by decide +kernel
+
+/-- the sub-function families of the model are exactly the registered ones -/
+theorem subfunction_families :
+    (requestRegistry.filter (·.kind = .dtcByMask)).map (·.sf) = dtcMaskSfs.map some ∧
+    (requestRegistry.filter (·.kind = .dtcPlain)).map (·.sf) = dtcPlainSfs.map some ∧
+    (requestRegistry.filter (·.kind = .routine)).map (·.sf) = routineSfs.map some := by decide +kernel
+
+/-! ### round trip -/
+
+/-- parsing the bytes of a well-formed request yields the same request (same kind, same field values; the two
+    adjacent unbounded records of InputOutputControlByIdentifier come back concatenated) -/
+theorem decode_encode (r : Req) (h : r.WF) (hr : r.isRaw = false) : decode (encode r) = norm r := by
+  unfold decode
+  rw [parseTyped_encode r h hr]
+  simp only [gate_encode r h hr, if_true]
+
+/-- a well-formed request is never degraded to an opaque raw request by the dynamic parser -/
+theorem decode_encode_ne_raw (r : Req) (h : r.WF) (hr : r.isRaw = false) : (decode (encode r)).isRaw = false := by
+  rw [decode_encode r h hr]
+  cases r <;> simp_all [norm, Req.isRaw]
+
+/-- whatever the parser returns — typed or raw — carries exactly the parsed bytes
+    (the in-code `assert result.pdu == pdu`, for every byte string) -/
+theorem encode_decode (b : Bytes) : encode (decode b) = b := by
+  unfold decode
+  split
+  · rename_i r hp
+    split
+    · exact (parseTyped_sound b r hp).1
+    · rfl
+  · rfl
+
+/-- the parser only ever returns requests whose fields are in their documented ranges -/
+theorem decode_wf (b : Bytes) : (decode b).WF := by
+  unfold decode
+  split
+  · rename_i r hp
+    split
+    · rename_i hg; exact (parseTyped_sound b r hp).2 hg
+    · simp [Req.WF]
+  · simp [Req.WF]
+
+/-- distinct well-formed requests have distinct PDUs (up to the inseparable record pair) -/
+theorem encode_injective (r s : Req) (hr : r.WF) (hs : s.WF) (hr' : r.isRaw = false) (hs' : s.isRaw = false)
+    (h : encode r = encode s) : norm r = norm s := by
+  rw [← decode_encode r hr hr', ← decode_encode s hs hs', h]
+
+/-- a typed result of the parser belongs to a registered class whose length gate the input passes -/
+theorem decode_typed_in_registry (b : Bytes) (h : (decode b).isRaw = false) :
+    ∃ e, regLookup (keyOf (decode b)).1 (keyOf (decode b)).2 = some e ∧ e.minLen ≤ b.length ∧
+      ∀ m, e.maxLen = some m → b.length ≤ m := by
+  unfold decode at h ⊢
+  split at h
+  · rename_i r hp
+    split at h
+    · rename_i hg
+      simp only [hg, if_true]
+      unfold gate at hg
+      split at hg
+      · rename_i e he
+        refine ⟨e, he, ?_, ?_⟩
+        · simp at hg; exact hg.1
+        · intro m hm; simp [hm] at hg; exact hg.2
+      · simp at hg
+    · simp [Req.isRaw] at h
+  · simp [Req.isRaw] at h
+
+example : decode (encode (.defineByMem 0xF300 0x24 [(0x11223344, 0x0102)] true)) = .defineByMem 0xF300 0x24 [(0x11223344, 0x0102)] true := by
+  decide +kernel
 
 end Gallia.C01
